@@ -46,9 +46,15 @@ namespace concurrency {
       private:
         std::mutex mtx;  //!< mutex for protecting count_
         std::condition_variable cv;  //!< associated condition variable
+#ifdef GMLC_TDC_CONCURRENCY_VERIF
+        ::gmlc_verif::plain<std::size_t> threshold_;
+        ::gmlc_verif::plain<std::size_t> count_;
+        ::gmlc_verif::plain<std::size_t> generation_{0};
+#else
         std::size_t threshold_;
         std::size_t count_;
         std::size_t generation_{0};
+#endif
     };
 }  // namespace concurrency
 }  // namespace gmlc
